@@ -8,4 +8,5 @@ RUSTFLAGS="--cfg rpgp_verif" CARGO_TARGET_DIR=/verif/target/chk cargo build --re
 mkdir -p target/tmp target/keys evidence
 # pre-generate the slow (RSA/DSA) zoo keys so that checks do not pay for them
 ./target/chk/release/mon ZOO --tier quick --seed 1 --shard 0 --nshards 1 --out target/tmp/zoo.json >/dev/null 2>&1 || true
+./target/chk/release/mon SELFCHECK | grep -q MON-SELFCHECK-OK
 echo setup done
